@@ -530,10 +530,66 @@ fn child_ack(rest: &[String]) {
     }
 }
 
+/// child mode for the checkpoint kill-injection leg: `child-ckpt <dir> <seed>`: seeded durable
+/// writes (immediate sync), a first checkpoint, more writes, then - between two marker syscalls -
+/// a second checkpoint to the same snapshot path. Prints the hash of the live view (which a
+/// checkpoint must not change) before the marked region.
+fn child_ckpt(rest: &[String]) {
+    use std::io::Write;
+    let dir = Path::new(&rest[1]);
+    let seed: u64 = rest[2].parse().unwrap();
+    let mut rng = Rng::new(seed);
+    let wal_cfg = WalConfig::default();
+    let cfg = CaseCfg { wal_cfg: wal_cfg.clone(), mode: "immediate", nkeys: 6, specials: false, rotation: false };
+    let store = TensorStore::open_durable(dir.join(WAL), wal_cfg).expect("open");
+    let mut wid = 0;
+    let mut run_ops = |n: usize, rng: &mut Rng, wid: &mut u64| {
+        for _ in 0..n {
+            match gen_op(rng, &cfg, wid, false) {
+                Op::Put(k, d) => {
+                    let _ = store.put_durable(k, d);
+                }
+                Op::Delete(k) => {
+                    let _ = store.delete_durable(&k);
+                }
+                _ => {}
+            }
+        }
+    };
+    run_ops(8 + rng.below(10), &mut rng, &mut wid);
+    store.checkpoint(dir.join(SNAP)).expect("first checkpoint");
+    run_ops(4 + rng.below(10), &mut rng, &mut wid);
+    let h = hash_str(&format!("{:?}", view(&store)));
+    let mut out = std::io::stdout();
+    writeln!(out, "STATE_HASH={}", h).unwrap();
+    out.flush().unwrap();
+    let _ = std::fs::metadata(dir.join("MARK-BEGIN-CKPT"));
+    store.checkpoint(dir.join(SNAP)).expect("second checkpoint");
+    let _ = std::fs::metadata(dir.join("MARK-END-CKPT"));
+    writeln!(out, "CHECKPOINT_DONE").unwrap();
+}
+
+/// child mode: `child-recover <dir>`: recover from whatever is on disk and print the view hash
+fn child_recover(rest: &[String]) {
+    let dir = Path::new(&rest[1]);
+    match TensorStore::recover(dir.join(WAL), &WalConfig::default(), Some(&dir.join(SNAP))) {
+        Ok(s) => println!("RECOVERED_HASH={}", hash_str(&format!("{:?}", view(&s)))),
+        Err(e) => println!("RECOVER_ERROR={}", format!("{}", e).replace('\n', " ")),
+    }
+}
+
 fn main() {
     let args = Args::parse();
     if args.rest.first().map(|s| s.as_str()) == Some("child-ack") {
         child_ack(&args.rest);
+        return;
+    }
+    if args.rest.first().map(|s| s.as_str()) == Some("child-ckpt") {
+        child_ckpt(&args.rest);
+        return;
+    }
+    if args.rest.first().map(|s| s.as_str()) == Some("child-recover") {
+        child_recover(&args.rest);
         return;
     }
     let started = Instant::now();
